@@ -6,7 +6,9 @@ package evaluator
 //
 // Every case line is one scenario: a table of cluster names, group names and storage contents, then a script of
 // storage updates (U), sequential status requests (Q), sleeps (S) and bursts of concurrent requests from 8 requesters
-// (C).  The real CachingEvaluator is driven through its request channel; the storage subsystem is played by the
+// (C); W ms = the storage subsystem stalls: nothing is taken off App.StorageChannel for ms; WR ms = the next storage
+// fetch is taken at once but answered ms later; M buf delay = from here on requesters use a reply channel of capacity
+// buf (0 = unbuffered) and read it delay ms after handing the request over (a slow requester).  The real CachingEvaluator is driven through its request channel; the storage subsystem is played by the
 // probe (a scripted responder on App.StorageChannel whose answers change over time).  goswarm reads the real clock,
 // so scenarios really sleep; they run in parallel goroutines on separate module instances.  The evaluation clock
 // (time.Now inside the evaluator package, rewritten to verifNow by the overlay) is pinned.
@@ -17,6 +19,7 @@ package evaluator
 //   L t chex ghex v        storage was asked for (cluster, group) -- as it arrived on the storage channel -- and
 //                          answered version v (0 = nil); the answer carries t as the client id of every partition
 //   Q i t ci gi showall    request i handed to the evaluator
+//   W t ms                 the storage responder stops taking requests for ms (WR: answers the next one ms late)
 //   R i t chex ghex n tok*n   a reply for request i arrived (names of the reply, then the group status)
 // then  RC n c_0 .. c_{n-1}  (replies seen per request, counted after a grace period)
 // and   ALIAS a             (1 = some reply object handed out earlier differs from the snapshot taken on receipt).
@@ -172,8 +175,10 @@ func vcParse(line string) *vcScen {
 		case "Q":
 			st.ci, st.gi = t.int(), t.int()
 			st.sa = t.int() == 1
-		case "S":
+		case "S", "W", "WR":
 			st.ms = t.int()
+		case "M":
+			st.k, st.ms = t.int(), t.int() // capacity of the reply channel, read delay
 		case "C":
 			st.k, st.ci, st.gi, st.v = t.int(), t.int(), t.int(), t.int()
 			for m := t.int(); m > 0; m-- {
@@ -285,12 +290,19 @@ func vcRun(sc *vcScen, module *CachingEvaluator) (res string) {
 	}
 
 	done := make(chan struct{})
+	stall := make(chan int)     // the responder takes nothing off the storage channel for that many ms
+	slowAnswer := make(chan int) // the next fetch is answered that many ms late
 	var responder sync.WaitGroup
 	responder.Add(1)
 	go func() {
 		defer responder.Done()
+		answerDelay := 0
 		for {
 			select {
+			case ms := <-stall:
+				time.Sleep(time.Duration(ms) * time.Millisecond)
+			case ms := <-slowAnswer:
+				answerDelay = ms
 			case r := <-module.App.StorageChannel:
 				mu.Lock()
 				t := stamp()
@@ -309,6 +321,10 @@ func vcRun(sc *vcScen, module *CachingEvaluator) (res string) {
 					burstK = -1
 				}
 				mu.Unlock()
+				if answerDelay > 0 {
+					time.Sleep(time.Duration(answerDelay) * time.Millisecond)
+					answerDelay = 0
+				}
 				if v > 0 {
 					r.Reply <- answer
 				}
@@ -322,7 +338,8 @@ func vcRun(sc *vcScen, module *CachingEvaluator) (res string) {
 	module.Start()
 
 	var reqs []*protocol.EvaluatorRequest
-	issue := func(i int, rq *protocol.EvaluatorRequest, ci, gi int) {
+	replyCap, readDelay := 4, 0
+	issue := func(i int, rq *protocol.EvaluatorRequest, ci, gi int, delay int) {
 		mu.Lock()
 		sa := 0
 		if rq.ShowAll {
@@ -334,6 +351,9 @@ func vcRun(sc *vcScen, module *CachingEvaluator) (res string) {
 		case module.GetCommunicationChannel() <- rq:
 		case <-time.After(3 * time.Second):
 			return
+		}
+		if delay > 0 {
+			time.Sleep(time.Duration(delay) * time.Millisecond) // a requester that comes back for its answer late
 		}
 		select {
 		case resp := <-rq.Reply:
@@ -348,7 +368,7 @@ func vcRun(sc *vcScen, module *CachingEvaluator) (res string) {
 		}
 	}
 	newReq := func(ci, gi int, sa bool) (int, *protocol.EvaluatorRequest) {
-		rq := &protocol.EvaluatorRequest{Reply: make(chan *protocol.ConsumerGroupStatus, 4),
+		rq := &protocol.EvaluatorRequest{Reply: make(chan *protocol.ConsumerGroupStatus, replyCap),
 			Cluster: sc.clusters[ci], Group: sc.groups[gi], ShowAll: sa}
 		reqs = append(reqs, rq)
 		return len(reqs) - 1, rq
@@ -362,9 +382,20 @@ func vcRun(sc *vcScen, module *CachingEvaluator) (res string) {
 			mu.Unlock()
 		case "S":
 			time.Sleep(time.Duration(st.ms) * time.Millisecond)
+		case "W", "WR":
+			mu.Lock()
+			events = append(events, fmt.Sprintf("W %d %d", stamp(), st.ms))
+			mu.Unlock()
+			if st.kind == "W" {
+				stall <- st.ms
+			} else {
+				slowAnswer <- st.ms
+			}
+		case "M":
+			replyCap, readDelay = st.k, st.ms
 		case "Q":
 			i, rq := newReq(st.ci, st.gi, st.sa)
-			issue(i, rq, st.ci, st.gi)
+			issue(i, rq, st.ci, st.gi, readDelay)
 			time.Sleep(40 * time.Millisecond) // lets a background refresh started by this request finish
 		case "C":
 			mu.Lock()
@@ -382,13 +413,14 @@ func vcRun(sc *vcScen, module *CachingEvaluator) (res string) {
 			}
 			gate := make(chan struct{})
 			var wg sync.WaitGroup
+			delay := readDelay
 			for _, lane := range lanes {
 				wg.Add(1)
 				go func(lane []job) {
 					defer wg.Done()
 					<-gate
 					for _, j := range lane {
-						issue(j.i, j.rq, j.ci, j.gi)
+						issue(j.i, j.rq, j.ci, j.gi, delay)
 					}
 				}(lane)
 			}
